@@ -31,7 +31,7 @@ def design_runs(ctx, tier):
         runs.append(("lists N=2 A=1 <=4 entries {1,-1,2}", dict(N=2, A=1, MaxTerms=4, MaxList=4, MaxSwaps=1), "InitLists", {"Factors": "SignedFactors"}))
     for label, consts, init, subst in runs:
         cfg = tlc.make_cfg(constants=consts, init=init, invariants=INVS, subst=subst)
-        r = tlc.run("SymbolicMpo", cfg, vacuity=True, timeout=3000)
+        r = tlc.run("SymbolicMpo", cfg, vacuity=True, timeout=3000 if tier == "quick" else 9000)
         ctx.add_tlc(r, label)
         if r["violated"]:
             ctx.violation(f"C01:spec:{r['violated']}", f"design model violates {r['violated']} ({label})", {"tlc": r.get("error_text", "")[:3000]})
